@@ -565,6 +565,8 @@ def check_cases(res: CheckResult, prop_clauses: Dict[str, set], cases: List[dict
                     continue
                 stats["violated"] += 1
                 want = viol.get(c["cid"])
+                if want is not None and want.get("nonefree"):
+                    stats["complete_claimed"] = stats.get("complete_claimed", 0) + 1   # ShownComplete's antecedent holds
                 if want is None:
                     raise MachineryError("case {} is violated but the specification printed no expectation".format(c["cid"]))
                 lines = parse_message(got[1], text) if got[0] == "violation" else None
